@@ -89,7 +89,7 @@ func ApplyEdit(g G, p *Project, d *verifsim.Disk, inPlace bool) string {
 		}
 		imp := Import{Target: t}
 		if isJS(p.Mods[t].Kind) {
-			imp.Style = g.n(NumImpStyles)
+			imp.Style = styleWeights[g.n(len(styleWeights))]
 			if m.Kind == "cjs" && imp.Style != ImpDynamic {
 				imp.Style = ImpRequire
 			}
@@ -292,7 +292,7 @@ func ApplyEdit(g G, p *Project, d *verifsim.Disk, inPlace bool) string {
 		}
 		im := &m.Imports[g.n(len(m.Imports))]
 		if im.Target >= 0 && isJS(p.Mods[im.Target].Kind) && m.Kind != "cjs" {
-			im.Style = g.n(NumImpStyles)
+			im.Style = styleWeights[g.n(len(styleWeights))]
 			if im.Style == ImpReexportStar && p.Mods[im.Target].Kind == "cjs" {
 				im.Style = ImpNamed
 			}
